@@ -3007,7 +3007,8 @@ foamTagFormat(Foam foam)
 				/* !! Should not store here. */
 				BInt	bint;
 				bint= xintStore(bintCopy(foamArgv(foam)[0].bint));
-				si  = bint->placec;
+				/* The count written is in 16-bit places. */
+				si  = bint->placec * (sizeof(BIntS)/sizeof(U16));
 				bintFree(bint);
 			}
 			else {
